@@ -19,8 +19,13 @@ DROP_CLAUSES = r"^(K\.st\.|K\.pairs|G\.|frame\.)"
 def specs(tier):
     from . import templates as t
 
+    from . import c02
+
+    # optimizer-only nodes: their parse() must be total too, including the pattern OptimizedChoice compiles lazily
+    opt = [ops.SkipUntilSpec(), ops.RegexNodeSpec("RegexExpression"), ops.RegexNodeSpec("OptimizedChoice"), *t.skipuntil_templates()[:3], *t.regex_node_templates(),
+           c02.SquashArms(), c02.LazyPatternsCompile()]
     return [*g.core_terminals(), *g.stack_terminals(), *g.structure(), *g.backtracking(), *ops.bounded_repeat_specs(), *g.rules(), *g.trivia(), *g.entry(),
-            *t.all_templates(3 if tier == "quick" else 5)]
+            *t.all_templates(3 if tier == "quick" else 5), *opt]
 
 from .groups import concretise_ops
 concretise = concretise_ops(PROPERTY)
